@@ -579,7 +579,7 @@ def exhaustive_programs(ctx, cfg, tag, rnd, keys, coverage=False, timeout=900):
         progs.append(mk_program("%s-%d" % (tag, i), [json.loads(o) for o in w], vals, [1, 3, 5]))
     ctx.add("states", r.distinct)
     ctx.add("transitions", r.generated)
-    ctx.cov.setdefault("exhaustive", {})[cfg] = {
+    ctx.cov.setdefault("exhaustive_tlc", {})[cfg] = {
         "distinct_states": r.distinct, "transitions": len(edges), "depth": r.depth,
         "tour_programs": len(progs), "tour_operations": sum(len(p["ops"]) for p in progs)}
     if coverage:
@@ -589,8 +589,8 @@ def exhaustive_programs(ctx, cfg, tag, rnd, keys, coverage=False, timeout=900):
                              r.out, re.M):
             if m.group(1) not in ("Init", "EdgePrint"):
                 acts[m.group(1)] = int(m.group(3))
-        ctx.cov["exhaustive"][cfg]["transitions_by_action"] = acts
-        ctx.cov["exhaustive"][cfg]["actions_never_taken"] = sorted(a for a, g in acts.items() if g == 0)
+        ctx.cov["exhaustive_tlc"][cfg]["transitions_by_action"] = acts
+        ctx.cov["exhaustive_tlc"][cfg]["actions_never_taken"] = sorted(a for a, g in acts.items() if g == 0)
         if len(acts) < 10 or any(g == 0 for g in acts.values()):
             raise vlib.Inconclusive("vacuity: actions never taken in %s: %s" % (cfg, acts))
     ctx.log("%s: %d states, %d transitions -> tour of %d programs / %d operations" % (
